@@ -70,6 +70,23 @@ func c03Run(x *core.Ctx) {
 			}
 		})
 	}
+	// escape sweep: every character after a backslash, and every 3- and 4-character body of a \u escape over an alphabet
+	// that includes the characters number parsers are lenient about (signs, blank, underscore, radix prefix)
+	for b := 0; b < 0x80; b++ {
+		if b%x.NShards != x.Shard {
+			continue
+		}
+		for _, tail := range []string{`"`, `0041"`, `x"`} {
+			s := "\"\\" + string(rune(b)) + tail
+			x.DoLite("src", "src", s, func() { c03Compare(x, s) })
+		}
+	}
+	for _, l := range []int{3, 4, 5} {
+		enumerate(c03HexAlphabet, l, x.Shard, x.NShards, func(body string) {
+			s := `"\u` + body + `"`
+			x.DoLite("src", "src", s, func() { c03Compare(x, s) })
+		})
+	}
 	r := x.Rand(uint64(x.Shard))
 	per := nRandom / x.NShards
 	for i := 0; i < per; i++ {
@@ -84,7 +101,10 @@ func c03Run(x *core.Ctx) {
 	}
 }
 
+var c03HexAlphabet = []string{"0", "4", "1", "a", "F", "g", "+", "-", " ", "_", "x", "é"}
+
 var soupPieces = []string{
+	`"\u+041"`, `"\u-041"`, `"\u 041"`, `"\u0x41"`, `"\u00_1"`, "# \x00 c", "# \x0c\n", "#\x1b",
 	"{", "}", "(", ")", "[", "]", ":", "=", "!", "$", "@", "|", "&", "...", "..", ".", "a", "B_9", "_", "on", "e", "E", "x1",
 	"0", "-0", "1", "-12", "007", "1.5", "1.", ".5", "1e5", "1E+5", "1e-", "1.5e10", "-1.5E-3", "2e", "9a", "3.x", "1..2", "0x1", "0.0", "12345678901234567890",
 	`""`, `"a"`, `"é"`, `"\n"`, `"é"`, `"éx"`, `"\uD83D"`, `"\q"`, `"\u12"`, `"\u12G4"`, `"unterminated`, `"\"`, `"\\"`, `"a\tb"`, "\"tab\there\"", `"\/"`, `"\b\f\r\t"`,
